@@ -11,6 +11,7 @@ mod beacon;
 mod keys;
 mod dissect;
 mod cfgmerge;
+mod table;
 
 use std::os::raw::{c_char, c_int};
 use std::panic::{catch_unwind, AssertUnwindSafe};
@@ -33,6 +34,7 @@ fn dispatch(args: &[String]) -> i32 {
         ("keys", _) => keys::run(&args[2..]),
         ("dissect", _) => dissect::run(&args[2..]),
         ("cfgmerge", _) => cfgmerge::run(&args[2..]),
+        ("table", _) => table::run(&args[2..]),
         _ => {
             eprintln!("usage: vpnharness <driver> <mode> ...");
             return 2;
